@@ -29,6 +29,26 @@ use crate::{
 
 use super::json_tokenizer::{JsonTokenizer, JsonValue};
 
+/// Content nested deeper than this is rejected instead of overflowing the
+/// stack (the loader recurses once per level). It is also the default recursion
+/// limit of serde_json, so both loaders accept about the same documents.
+const MAX_NESTING_DEPTH: usize = 128;
+
+fn check_nesting_depth(depth: usize) -> Result<(), StoryError> {
+    if depth > MAX_NESTING_DEPTH {
+        return Err(StoryError::BadJson(format!(
+            "Story content is nested deeper than {} levels.",
+            MAX_NESTING_DEPTH
+        )));
+    }
+
+    Ok(())
+}
+
+fn bad_json_value(what: &str) -> StoryError {
+    StoryError::BadJson(format!("Invalid value for {}", what))
+}
+
 pub fn load_from_string(
     s: &str,
 ) -> Result<(i32, Rc<Container>, Rc<ListDefinitionsOrigin>), StoryError> {
@@ -50,7 +70,10 @@ fn parse(
         ));
     }
 
-    let version: i32 = tok.read_number().unwrap().as_integer().unwrap();
+    let version: i32 = tok
+        .read_number()?
+        .as_integer()
+        .ok_or_else(|| bad_json_value("inkVersion"))?;
 
     if version > INK_VERSION_CURRENT {
         return Err(StoryError::BadJson(
@@ -74,7 +97,7 @@ fn parse(
     }
 
     let root_value = tok.read_value()?;
-    let main_content_container = match jtoken_to_runtime_object(tok, root_value, None)? {
+    let main_content_container = match jtoken_to_runtime_object(tok, root_value, None, 1)? {
         ArrayElement::RTObject(rt_obj) => rt_obj,
         _ => {
             return Err(StoryError::BadJson(
@@ -123,16 +146,21 @@ fn jtoken_to_runtime_object(
     tok: &mut JsonTokenizer,
     value: JsonValue,
     name: Option<String>,
+    depth: usize,
 ) -> Result<ArrayElement, StoryError> {
+    check_nesting_depth(depth)?;
+
     match value {
         JsonValue::Null => Ok(ArrayElement::NullElement),
         JsonValue::Boolean(value) => Ok(ArrayElement::RTObject(Rc::new(Value::new::<bool>(value)))),
         JsonValue::Number(value) => {
             if value.is_integer() {
-                let val: i32 = value.as_integer().unwrap();
+                let val: i32 = value
+                    .as_integer()
+                    .ok_or_else(|| bad_json_value("integer"))?;
                 Ok(ArrayElement::RTObject(Rc::new(Value::new::<i32>(val))))
             } else {
-                let val: f32 = value.as_float().unwrap();
+                let val: f32 = value.as_float().ok_or_else(|| bad_json_value("float"))?;
                 Ok(ArrayElement::RTObject(Rc::new(Value::new::<f32>(val))))
             }
         }
@@ -140,7 +168,11 @@ fn jtoken_to_runtime_object(
             let str = value.as_str();
 
             // String value
-            let first_char = str.chars().next().unwrap();
+            let first_char = str.chars().next().ok_or_else(|| {
+                StoryError::BadJson(
+                    "Failed to convert token to runtime RTObject: empty string".to_owned(),
+                )
+            })?;
             if first_char == '^' {
                 return Ok(ArrayElement::RTObject(Rc::new(Value::new::<&str>(
                     &str[1..],
@@ -180,7 +212,9 @@ fn jtoken_to_runtime_object(
                 str
             )))
         }
-        JsonValue::Array => Ok(ArrayElement::RTObject(jarray_to_container(tok, name)?)),
+        JsonValue::Array => Ok(ArrayElement::RTObject(jarray_to_container(
+            tok, name, depth,
+        )?)),
         JsonValue::Object => {
             let prop = tok.read_obj_key()?;
             let prop_value = tok.read_value()?;
@@ -195,13 +229,16 @@ fn jtoken_to_runtime_object(
 
             // // VariablePointerValue
             if prop == "^var" {
-                let variable_name = prop_value.as_str().unwrap();
+                let variable_name = prop_value.as_str().ok_or_else(|| bad_json_value("^var"))?;
                 let mut contex_index = -1;
 
                 if tok.peek()? == ',' {
                     tok.expect(',')?;
                     tok.expect_obj_key("ci")?;
-                    contex_index = tok.read_number().unwrap().as_integer().unwrap();
+                    contex_index = tok
+                        .read_number()?
+                        .as_integer()
+                        .ok_or_else(|| bad_json_value("ci"))?;
                 }
 
                 let var_ptr = Rc::new(Value::new_variable_pointer(variable_name, contex_index));
@@ -233,7 +270,10 @@ fn jtoken_to_runtime_object(
             }
 
             if is_divert {
-                let target = prop_value.as_str().unwrap().to_string();
+                let target = prop_value
+                    .as_str()
+                    .ok_or_else(|| bad_json_value("divert target"))?
+                    .to_string();
 
                 let mut var_divert_name: Option<String> = None;
                 let mut target_path: Option<String> = None;
@@ -252,7 +292,10 @@ fn jtoken_to_runtime_object(
                     } else if prop == "c" {
                         conditional = true;
                     } else if prop == "exArgs" {
-                        external_args = prop_value.as_integer().unwrap() as usize;
+                        external_args = prop_value
+                            .as_integer()
+                            .and_then(|n| usize::try_from(n).ok())
+                            .ok_or_else(|| bad_json_value("exArgs"))?;
                     }
                 }
 
@@ -275,12 +318,16 @@ fn jtoken_to_runtime_object(
             // Choice
             if prop == "*" {
                 let mut flags = 0;
-                let path_string_on_choice = prop_value.as_str().unwrap();
+                let path_string_on_choice =
+                    prop_value.as_str().ok_or_else(|| bad_json_value("*"))?;
 
                 if tok.peek()? == ',' {
                     tok.expect(',')?;
                     tok.expect_obj_key("flg")?;
-                    flags = tok.read_number().unwrap().as_integer().unwrap();
+                    flags = tok
+                        .read_number()?
+                        .as_integer()
+                        .ok_or_else(|| bad_json_value("flg"))?;
                 }
 
                 tok.expect('}')?;
@@ -294,14 +341,16 @@ fn jtoken_to_runtime_object(
             if prop == "VAR?" {
                 tok.expect('}')?;
                 return Ok(ArrayElement::RTObject(Rc::new(VariableReference::new(
-                    prop_value.as_str().unwrap(),
+                    prop_value.as_str().ok_or_else(|| bad_json_value("VAR?"))?,
                 ))));
             }
 
             if prop == "CNT?" {
                 tok.expect('}')?;
                 return Ok(ArrayElement::RTObject(Rc::new(
-                    VariableReference::from_path_for_count(prop_value.as_str().unwrap()),
+                    VariableReference::from_path_for_count(
+                        prop_value.as_str().ok_or_else(|| bad_json_value("CNT?"))?,
+                    ),
                 )));
             }
 
@@ -318,7 +367,9 @@ fn jtoken_to_runtime_object(
             }
 
             if is_var_ass {
-                let var_name = prop_value.as_str().unwrap();
+                let var_name = prop_value
+                    .as_str()
+                    .ok_or_else(|| bad_json_value("variable assignment"))?;
                 let mut is_new_decl = true;
 
                 if tok.peek()? == ',' {
@@ -341,7 +392,7 @@ fn jtoken_to_runtime_object(
             if prop == "#" {
                 tok.expect('}')?;
                 return Ok(ArrayElement::RTObject(Rc::new(Tag::new(
-                    prop_value.as_str().unwrap(),
+                    prop_value.as_str().ok_or_else(|| bad_json_value("#"))?,
                 ))));
             }
 
@@ -385,8 +436,10 @@ fn jtoken_to_runtime_object(
 
             // Used when serialising save state only
             if prop == "originalChoicePath" {
-                todo!("originalChoicePath");
                 // return jobject_to_choice(obj); // TODO
+                return Err(StoryError::BadJson(
+                    "Saved choices are not supported by the streaming story loader.".to_owned(),
+                ));
             }
 
             // Last Element
@@ -399,11 +452,26 @@ fn jtoken_to_runtime_object(
 
             loop {
                 if p == "#f" {
-                    flags = pv.as_integer().unwrap();
+                    flags = pv.as_integer().ok_or_else(|| bad_json_value("#f"))?;
                 } else if p == "#n" {
-                    name = Some(pv.as_str().unwrap().to_string());
+                    name = Some(pv.as_str().ok_or_else(|| bad_json_value("#n"))?.to_string());
                 } else {
-                    let named_content_item = jtoken_to_runtime_object(tok, pv, Some(p.clone()))?;
+                    let named_content_item = match pv {
+                        // Same as the Array arm of this function, without its
+                        // (large) stack frame on the recursion path.
+                        JsonValue::Array => ArrayElement::RTObject(jarray_to_container(
+                            tok,
+                            Some(p.clone()),
+                            depth + 1,
+                        )?),
+                        // Nothing else loads as a container
+                        _ => {
+                            return Err(StoryError::BadJson(format!(
+                                "Named content '{}' is not a container",
+                                p
+                            )));
+                        }
+                    };
 
                     let named_content_item = match named_content_item {
                         ArrayElement::RTObject(rt_obj) => rt_obj,
@@ -417,7 +485,9 @@ fn jtoken_to_runtime_object(
                     let named_sub_container = named_content_item
                         .into_any()
                         .downcast::<Container>()
-                        .unwrap();
+                        .map_err(|_| {
+                            StoryError::BadJson(format!("Named content '{}' is not a container", p))
+                        })?;
 
                     named_only_content.insert(p, named_sub_container);
                 }
@@ -447,7 +517,10 @@ fn parse_list(tok: &mut JsonTokenizer) -> Result<HashMap<String, i32>, StoryErro
 
     while tok.peek()? != '}' {
         let key = tok.read_obj_key()?;
-        let value = tok.read_number().unwrap().as_integer().unwrap();
+        let value = tok
+            .read_number()?
+            .as_integer()
+            .ok_or_else(|| bad_json_value("list item"))?;
         list_content.insert(key, value);
 
         if tok.peek()? != '}' {
@@ -463,8 +536,11 @@ fn parse_list(tok: &mut JsonTokenizer) -> Result<HashMap<String, i32>, StoryErro
 fn jarray_to_container(
     tok: &mut JsonTokenizer,
     name: Option<String>,
+    depth: usize,
 ) -> Result<Rc<dyn RTObject>, StoryError> {
-    let (content, named) = jarray_to_runtime_obj_list(tok)?;
+    check_nesting_depth(depth)?;
+
+    let (content, named) = jarray_to_runtime_obj_list(tok, depth)?;
 
     // Final object in the array is always a combination of
     //  - named content
@@ -490,13 +566,18 @@ fn jarray_to_container(
     Ok(container)
 }
 
-fn jarray_to_runtime_obj_list(tok: &mut JsonTokenizer) -> RuntimeObjectListResult {
+fn jarray_to_runtime_obj_list(tok: &mut JsonTokenizer, depth: usize) -> RuntimeObjectListResult {
     let mut list: RuntimeObjectList = Vec::new();
     let mut last_element: Option<ArrayElement> = None;
 
     while tok.peek()? != ']' {
         let val = tok.read_value()?;
-        let runtime_obj = jtoken_to_runtime_object(tok, val, None)?;
+        let runtime_obj = match val {
+            // Same as the Array arm of jtoken_to_runtime_object, but keeps its
+            // (large) stack frame out of the deepest recursion path.
+            JsonValue::Array => ArrayElement::RTObject(jarray_to_container(tok, None, depth + 1)?),
+            val => jtoken_to_runtime_object(tok, val, None, depth + 1)?,
+        };
 
         match runtime_obj {
             ArrayElement::LastElement(flags, name, named_only_content) => {
